@@ -64,8 +64,10 @@ def main():
             print(sid, "skipped (not confirmed)")
             continue
         r = sh("git -C /repo apply %s/patch.diff || git -C /repo apply -3 %s/patch.diff" % (d, d))
-        if sh("git -C /repo status --porcelain").stdout.strip() == "":
-            print(sid, "patch did not apply:", r.stdout[-200:])
+        stt = sh("git -C /repo status --porcelain").stdout
+        if stt.strip() == "" or "UU " in stt or r.returncode != 0:
+            sh("git -C /repo reset -q --hard HEAD")
+            print(sid, "patch did not apply cleanly to the current /repo HEAD:", r.stdout[-200:])
             continue
         checks = [prop] + [c for c in (meta.get("also") or []) + also if c != prop]
         runs = meta.get("runs", {})
@@ -82,7 +84,7 @@ def main():
                 }
                 print(sid, c, tier, "exit", p.returncode, "violations", len(viol), "%.0fs" % (time.time() - t0))
         finally:
-            sh("git -C /repo checkout -- . && git -C /repo clean -fdq")
+            sh("git -C /repo reset -q --hard HEAD && git -C /repo clean -fdq")
         meta["runs"] = runs
         meta["detected_by"] = sorted({k for k, v in runs.items() if v["exit"] == 1 and v["violations"] > 0})
         meta["what_ran"] = "git -C /repo apply seeded/%s/patch.diff; ./check <Cxx> %s; git -C /repo checkout -- ." % (sid, tier)
